@@ -145,7 +145,7 @@ func (li *loopInfo) invariant(v ssa.Value) bool {
 		switch y := v.(type) {
 		case *ssa.Call:
 			if n := CalleeName(y.Common()); n == "builtin:len" || n == "builtin:cap" {
-				return li.invariant(y.Common().Args[0])
+				return li.invariant(ArgK(y, 0))
 			}
 		case *ssa.Convert:
 			return li.invariant(y.X)
@@ -216,10 +216,10 @@ func (li *loopInfo) classify() (shape string, desc string) {
 		// cursor: the exit asks a cursor whether it is still valid and every way round the
 		// loop advances that cursor (pebble iterators, scanners)
 		if cl, ok := ex.Cond.(*ssa.Call); ok && !cl.Common().IsInvoke() && len(cl.Common().Args) == 1 && strings.HasSuffix(CalleeName(cl.Common()), ").Valid") {
-			recv := cl.Common().Args[0]
+			recv := ArgK(cl, 0)
 			adv := func(in ssa.Instruction) bool {
 				c2, ok := in.(*ssa.Call)
-				if !ok || len(c2.Common().Args) != 1 || c2.Common().Args[0] != recv {
+				if !ok || len(c2.Common().Args) != 1 || ArgK(c2, 0) != recv {
 					return false
 				}
 				n := CalleeName(c2.Common())
@@ -257,7 +257,7 @@ func (li *loopInfo) classify() (shape string, desc string) {
 			if !isCall || !isZero || z != 0 || !strings.HasSuffix(CalleeName(cl.Common()), ").Len") || len(cl.Common().Args) != 1 {
 				continue
 			}
-			cell := cellOf(cl.Common().Args[0])
+			cell := cellOf(ArgK(cl, 0))
 			if cell == nil {
 				continue
 			}
@@ -270,7 +270,7 @@ func (li *loopInfo) classify() (shape string, desc string) {
 						if !ok || CalleeName(c2.Common()) != "container/heap.Pop" || len(c2.Common().Args) != 1 {
 							continue
 						}
-						if cellOf(c2.Common().Args[0]) == cell && (b == l || b.Dominates(l)) {
+						if cellOf(ArgK(c2, 0)) == cell && (b == l || b.Dominates(l)) {
 							found = true
 						}
 					}
@@ -287,7 +287,7 @@ func (li *loopInfo) classify() (shape string, desc string) {
 			v, bound := side[0], side[1]
 			// consuming: len(φ) against a constant
 			if cl, ok := stripConv(v).(*ssa.Call); ok && CalleeName(cl.Common()) == "builtin:len" {
-				if phi := li.headerPhiOf(cl.Common().Args[0]); phi != nil {
+				if phi := li.headerPhiOf(ArgK(cl, 0)); phi != nil {
 					if _, isC := constInt(bound); isC && li.strictlyShorter(phi) {
 						return "consuming", ""
 					}
@@ -378,7 +378,7 @@ func (li *loopInfo) strictlyShorter(phi *ssa.Phi) bool {
 			// s[:len(s)-k]
 			if b, isB := stripConv(sl.High).(*ssa.BinOp); isB && b.Op == token.SUB {
 				if c, isC := constInt(b.Y); isC && c >= 1 {
-					if cl, isCl := stripConv(b.X).(*ssa.Call); isCl && CalleeName(cl.Common()) == "builtin:len" && stripConv(cl.Common().Args[0]) == ssa.Value(phi) {
+					if cl, isCl := stripConv(b.X).(*ssa.Call); isCl && CalleeName(cl.Common()) == "builtin:len" && stripConv(ArgK(cl, 0)) == ssa.Value(phi) {
 						highOK = true
 					}
 				}
